@@ -832,6 +832,21 @@ pub fn op_ae(a: &[&str]) -> String {
 /// 32-bit discrete log after a *sequence* of configuration calls on one instance (C10):
 /// `dlogseq <target> <k|?> t4+b33+t1+t3?` — `t<n>` = num_threads(n), `b<n>` = set_compression_batch_size(n);
 /// a trailing `?` ignores a refusal (the instance must then be unchanged), otherwise a refusal ends with `err`
+/// the decoder is for the basepoint only and ignores the (deprecated, public) `generator` field: an instance made by
+/// the deprecated constructor with another generator, or whose field was overwritten, decodes like `new_for_g`
+#[allow(deprecated)]
+fn other_generator(p: curve25519_dalek::ristretto::RistrettoPoint, pick: usize) -> solana_zk_sdk::encryption::discrete_log::DiscreteLog {
+    use curve25519_dalek::{constants::RISTRETTO_BASEPOINT_POINT as G, scalar::Scalar, traits::Identity};
+    use solana_zk_sdk::encryption::{discrete_log::DiscreteLog, pedersen::H};
+    match pick % 5 {
+        0 => DiscreteLog::new(*H, p),
+        1 => DiscreteLog::new(Scalar::from(7u64) * G, p),
+        2 => DiscreteLog::new(-(Scalar::from(7u64) * G), p),
+        3 => DiscreteLog::new(curve25519_dalek::ristretto::RistrettoPoint::identity(), p),
+        _ => { let mut d = DiscreteLog::new_for_g(p); d.generator = p; d }
+    }
+}
+
 pub fn op_dlogseq(a: &[&str]) -> String {
     use solana_zk_sdk::encryption::discrete_log::DiscreteLog;
     use std::num::NonZeroUsize;
@@ -839,7 +854,7 @@ pub fn op_dlogseq(a: &[&str]) -> String {
     let Some(tb) = unhex(t) else { return "bad-op".into() };
     let Some(p) = curve25519_dalek::ristretto::CompressedRistretto::from_slice(&tb).ok().and_then(|c| c.decompress()) else { return "bad-op".into() };
     #[allow(deprecated)]
-    let ctors = [DiscreteLog::new_for_g(p), DiscreteLog::new(curve25519_dalek::constants::RISTRETTO_BASEPOINT_POINT, p)];
+    let ctors = [DiscreteLog::new_for_g(p), DiscreteLog::new(curve25519_dalek::constants::RISTRETTO_BASEPOINT_POINT, p), other_generator(p, seq.len())];
     let mut results = vec![];
     for mut d in ctors {
         for tok in seq.split('+') {
@@ -866,6 +881,7 @@ pub fn op_dlogseq(a: &[&str]) -> String {
         results.push(direct);
     }
     if results[0] != results[1] { return format!("variant-mismatch:{:?}:{:?}", results[0], results[1]) }
+    if results[0] != results[2] { return format!("variant-mismatch:generator-field:{:?}:{:?}", results[0], results[2]) }
     match results[0] { Some(x) => format!("some:{}", x), None => "none".into() }
 }
 
@@ -882,7 +898,8 @@ pub fn op_dlog(a: &[&str]) -> String {
     let Some(p) = curve25519_dalek::ristretto::CompressedRistretto::from_slice(&tb).ok().and_then(|c| c.decompress()) else { return "bad-op".into() };
     // both constructors (the deprecated generic one with G), configured identically, must agree
     #[allow(deprecated)]
-    let ctors = [DiscreteLog::new_for_g(p), DiscreteLog::new(curve25519_dalek::constants::RISTRETTO_BASEPOINT_POINT, p)];
+    let ctors = [DiscreteLog::new_for_g(p), DiscreteLog::new(curve25519_dalek::constants::RISTRETTO_BASEPOINT_POINT, p),
+                 other_generator(p, threads.len() + 3 * batch.len() + tb[0] as usize)];
     let mut results = vec![];
     for mut d in ctors {
         if *threads != "-" {
@@ -902,6 +919,7 @@ pub fn op_dlog(a: &[&str]) -> String {
         results.push(direct);
     }
     if results[0] != results[1] { return format!("variant-mismatch:{:?}:{:?}", results[0], results[1]) }
+    if results[0] != results[2] { return format!("variant-mismatch:generator-field:{:?}:{:?}", results[0], results[2]) }
     // the answer does not depend on how many CPUs the calling thread may use: the same decode from a thread restricted
     // to 3 CPUs, and to 1 CPU (affinity mask; worker threads inherit it)
     if let (Some(_), Ok(n)) = (results[0], threads.parse::<usize>()) {
